@@ -174,6 +174,29 @@ def c15_cases(rng, tier):
         for o in (ops, list(reversed(ops)), [(rows[1], 0)] + ops + [(push, 96)]):
             cases.append(f"analyze {ops_toks(o)}")
             oracles.append(f"o_analyze {ops_toks(o)}")
+    # long programs: a Push at every offset, a run of plain ops of every length class after it, then an effect op
+    # (block-wise / vectorised rewrites of the scan go wrong at block boundaries)
+    plain = [r for r in rows if not r["imm"] and r not in eff_ops]
+    for off in range(0, 136 if tier == "quick" else 264):
+        for k in (0, 1, 7, 8, 9, 15, 16, 17, 31, 32, 33, 55, 56, 57, 63, 64, 65, 120, 127, 128, 129):
+            if tier == "quick" and rng.random() < 0.5:
+                continue
+            e = rng.choice(eff_ops)
+            ops = [(plain[0], 0)] * off + [(push, rng.choice([0, -1, e["opcode"]]))] + [(plain[1], 0)] * k + [(e, 0)]
+            E = rng.choice([63, 63, 1 << eff_ops.index(e) if eff_ops.index(e) < 6 else 63])
+            bs = ops_bytes(ops)
+            cases.append(f"contains {E} {hx(bs)}")
+            oracles.append(f"o_contains {E} {hx(bs)}")
+    for _ in range(150 if tier == "quick" else 5000):
+        ops = []
+        for _ in range(rng.randrange(40, 400)):
+            r_ = rng.random()
+            ops.append((push, rng.choice([0, 1, -1, rng.choice(eff_ops)["opcode"]])) if r_ < 0.04 else
+                       (rng.choice(eff_ops), 0) if r_ < 0.05 else (rng.choice(plain), 0))
+        E = rng.choice(subsets)
+        bs = ops_bytes(ops)
+        cases.append(f"contains {E} {hx(bs)}")
+        oracles.append(f"o_contains {E} {hx(bs)}")
     n = 300 if tier == "quick" else 20000
     for _ in range(n):
         ops = rand_ops(rng, rows + eff_ops * 3, rng.randrange(0, 12))
